@@ -78,10 +78,12 @@ theorem cow_frame_blocks (reads : Nat → Bool) (σ : St) (hwf : WF σ) (bs : Li
 open OpmVerif.Gen.HandlerEffects
 
 /-- Sites that are safe by their class: by-value members of the snapshot being processed,
-aliases of it, reads of other snapshots, in-place mutators on a freshly copied object. -/
+aliases of it, reads of other snapshots, in-place mutators on a freshly copied object,
+appends to the snapshot vector. -/
 def safeKind (s : Site) : Bool :=
   (s.kind == "refValue" && s.recv == "cur") || (s.kind == "snapAlias" && s.recv == "cur") ||
-  s.kind == "snapIndexR" || (s.kind == "innerShared" && s.recv == "fresh")
+  s.kind == "snapIndexR" || s.kind == "snapOtherR" || (s.kind == "innerShared" && s.recv == "fresh") ||
+  (s.kind == "snapContainer" && (s.recv == "emplace_back" || s.recv == "push_back" || s.recv == "reserve"))
 
 /-- (function, kind, receiver, justification).  Everything else must be `safeKind`. -/
 def allowList : List (String × String × String × String) := [
@@ -110,7 +112,13 @@ def allowList : List (String × String × String × String) := [
   ("Schedule::load_rst", "refShared", "cur", "restart only: earlier snapshots are empty placeholders"),
   ("Schedule::applyWellProdIndexScaling", "refShared", "other:step", "run-time PI scaling of step n and later, in place BY DESIGN for later steps; reaches earlier snapshots through shared objects — finding C04/welpi, see design.d/C04.md"),
   ("Schedule::applyWellProdIndexScaling", "innerShared", "shared", "same finding"),
-  ("handleWELPIRuntime", "innerShared", "shared", "FINDING C04/welpi: scales the WellConnections shared with earlier snapshots (reproduced on the real code)")
+  ("Schedule::serializationTestObject", "snapContainer", "operator=", "fresh local test object `result`, not the schedule being built"),
+  ("Schedule::applyKeywords", "snapContainer", "resize", "C04 mechanism: resize(reportStep+1) drops the snapshots AFTER reportStep before re-iterating from it; snapshots 0..reportStep are kept (modelled in SchedAction)"),
+  ("Schedule::applyAction", "snapContainer", "resize", "C04 mechanism: resize(reportStep+1) drops the snapshots AFTER reportStep before re-iterating from it; snapshots 0..reportStep are kept (modelled in SchedAction)"),
+  ("Schedule::filterConnections", "snapOtherW", "all", "same loop as the snapAlias/all entry: post-construction filter applied to every snapshot on purpose, not a keyword handler"),
+  ("Schedule::filterConnections", "snapOtherW", "alias:all", "same: the wells of every snapshot are filtered in place by design"),
+  ("Schedule::applyWellProdIndexScaling", "snapIndexW", "step", "run-time PI scaling: non-const Well& of every step >= reportStep (the refShared other:step entry seen by the index scan)"),
+  ("Schedule::applyWellProdIndexScaling", "snapOtherW", "alias:[step]", "run-time PI scaling: &well collected in unique_wells and scaled in place")
 ]
 
 def allowed (s : Site) : Bool :=
@@ -125,7 +133,8 @@ theorem handlers_table_nonempty : 8 ≤ nFiles ∧ 40 ≤ sites.length := by dec
 
 /-! ### non-vacuity -/
 
-def k0 : Consts := { one := "1", zero := "-", bhpProd := "b", bhpInj := "B" }
+def k0 : Consts := { one := "1", zero := "-", bhpProd := "b", bhpInj := "B", num0 := "0", siP := "sP", siLRate := "sL",
+                     siTime := "sT", bhpProdSI := "bS", bhpHistSI := "bH", bhpInjHSI := "bI" }
 def d0 : Date := { y := 2015, m := 1, d := 1 }
 def pre0 : List (Kw CKw) := [.other (.ops "GRUPTREE" [.gruptree "G1" "FIELD", .gruptree "G2" "G1"]), .other (.ops "RPTRST" [])]
 def t0 : Kw CKw := .tstep [{ num := 10, den := 1 }, { num := 1, den := 2 }]
